@@ -295,7 +295,7 @@ impl Property for C20 {
                         if failure.lock().unwrap().is_some() {
                             return;
                         }
-                        let f = bundled_formula(&raw, &bn);
+                        let f = bundled_formula(&raw, &bn, HYBRID_OK_ON.contains(&m));
                         let case = SemCase {
                             aeon: format!("bundled:{m}"),
                             k: f.quant_depth() as u16,
